@@ -154,13 +154,15 @@ def check(run) -> None:
     # the same grid cell may also run with agents leaving the queue (3 agents; saturation with a removed agent that
     # sorts before every queued one)
     grid = [g + (False,) for g in grid] + [(3, pol, m, 100, pol == "round_robin", True) for pol in ("round_robin", "fair_queue") for m in ((1,) if q else (1, 2))]
-    for (n, policy, mct, aging, rot, leave) in grid:
+    # ... and with a state whose last-ran stamps lie ahead of the turn clock (init_scheduler_state(now_ms=250), clock from 0)
+    grid = [g + (0,) for g in grid] + [(n_, pol, 1, 100, False, False, 250) for n_ in (2, 3) for pol in ("round_robin", "fair_queue")]
+    for (n, policy, mct, aging, rot, leave, stamp) in grid:
         depth = ((26 if n <= 2 else 20) if q else (40 if n <= 3 else 30)) if not leave else (14 if q else 20)
         consts = {"N": n, "Policy": policy, "Mct": mct, "Aging": aging, "Rotate": rot,
                   "Advances": ([0, 100, 250] if policy == "fair_queue" and aging else [0, 100]),
-                  "MaxNow": 500 if q else 800, "MaxDepth": depth, "AllowLeave": leave}
+                  "MaxNow": 500 if q else 800, "MaxDepth": depth, "AllowLeave": leave, "InitStamp": stamp}
         cfg = make_cfg(consts, invs, [], constraint="DepthOK")
-        name = f"Sched_n{n}_{policy[:2]}_m{mct}_a{aging}_r{int(rot)}" + ("_leave" if leave else "")
+        name = f"Sched_n{n}_{policy[:2]}_m{mct}_a{aging}_r{int(rot)}" + ("_leave" if leave else "") + (f"_stamp{stamp}" if stamp else "")
         res = run.tlc("Scheduler", cfg, name=name, workers=1, timeout_s=900)
         run.model_must_hold(res)
         cases = [(consts, t) for t in res.emitted if t["obs"]["op"] not in ("advance", "leave")]
@@ -188,7 +190,7 @@ def check(run) -> None:
     # liveness on the clock-abstracted model
     for (n, policy, mct) in ([(3, "round_robin", 2)] if q else [(3, "round_robin", 2), (3, "fair_queue", 2), (4, "round_robin", 1)]):
         consts = {"N": n, "Policy": policy, "Mct": mct, "Aging": 0, "Rotate": policy == "round_robin",
-                  "Advances": [], "MaxNow": 0, "MaxDepth": 0, "AllowLeave": False}
+                  "Advances": [], "MaxNow": 0, "MaxDepth": 0, "AllowLeave": False, "InitStamp": 0}
         cfg = make_cfg(consts, ["WaitBound"], ["EveryoneRuns"], spec="Fair", emit=False, view=None)
         res = run.tlc("Scheduler", cfg, name=f"SchedLive_n{n}_{policy[:2]}_m{mct}", workers=1, timeout_s=600)
         run.model_must_hold(res)
@@ -227,7 +229,7 @@ def check(run) -> None:
         sel = [e for e in ctl["ev"] if e["op"] == "select"]
         sel[len(sel) // 2]["agent"] = sel[len(sel) // 2]["agent"] % n + 1
         consts = {"N": n, "Policy": policy, "Mct": mct, "Aging": aging, "Rotate": rot,
-                  "Advances": [], "MaxNow": 0, "MaxDepth": 0, "AllowLeave": False}
+                  "Advances": [], "MaxNow": 0, "MaxDepth": 0, "AllowLeave": False, "InitStamp": 0}
         v = run.validate_traces("SchedulerTrace", consts, traces + [ctl], name=f"SchedTrace_{tidn}")
         for t in traces + [ctl]:
             verdict, pos = v[t["tid"]]
